@@ -271,7 +271,7 @@ pub fn gen_text_style(r: &mut Rng) -> crate::mval::TextStyle {
         trail: if r.chance(1, 3) { r.below(4) as u8 } else { 0 },
         lead: if r.chance(1, 8) { r.below(4) as u8 } else { 0 },
         dup_keys: r.chance(1, 8),
-        num_form: if r.chance(1, 3) { r.below(3) as u8 } else { 0 },
+        num_form: if r.chance(1, 3) { r.below(4) as u8 } else { 0 },
     }
 }
 
